@@ -599,7 +599,35 @@ def r10_skipped_only_when_absent(ctx, cfg=None, rule="C07.R10"):
     ctx.floor(rule, n, 2, "V1-MIME parsers with an optional epilogue checksum")
 
 
+def r11_hash_is_read(ctx, cfg):
+    """a stored checksum that is never read cannot fail: `read_exact` into a buffer whose length is provably 0 (a Vec::with_capacity(n) that was
+    never resized - capacity is not length) reads nothing and succeeds, and a comparison over min(stored.len(), n) bytes then compares nothing"""
+    from . import bounds
+    rule = "C07.R11"
+    ctx.rule(rule, "no read_exact into a buffer that E-bounds proves empty (Vec::with_capacity / Vec::new without resize)")
+    n = 0
+    for b in ctx.prog.bodies.values():
+        if not b.krate.startswith("cascette_") or b.krate == "cascette_ribbit":
+            continue
+        rd = [c for c in b.calls if re.search(r"\bRead>?::read_exact$|AsyncReadExt>?::read_exact$", c.orig_name or c.name) and c.bb in b.live_blocks()]
+        if not rd:
+            continue
+        try:
+            a = bounds.Analysis(b)
+        except RecursionError:
+            continue
+        n += len(rd)
+        zr = getattr(a, "zero_reads", {})
+        for c in rd:
+            ctx.check(c.bb not in zr, rule, [b.id, "read-into-empty", c.bb if c.bb not in zr else "x"], "the buffer has a length",
+                      "%s calls read_exact on a buffer whose length is 0 at that point (allocated with Vec::with_capacity / Vec::new and never resized): nothing is "
+                      "read and the call succeeds - a checksum or field loaded this way is empty, and a comparison bounded by its length always passes" %
+                      ctx._stable(b.id), c.loc())
+    ctx.floor(rule, n, 40, "read_exact call sites analysed")
+
+
 def run(ctx, cfg=CFG):
+    r11_hash_is_read(ctx, cfg)
     r10_skipped_only_when_absent(ctx, cfg)
     r8_prevalidated(ctx, cfg)
     r9_hashed_bytes(ctx, cfg)
